@@ -1,9 +1,12 @@
 """C12 — alignment: optimal proper rigid motion, recovery of applied motions, mirror only on request.
 
 Correspondence: every `B787` call (outer and the nested mirror pre-test) and every direct `kabsch_align`
-call is replayed through the Lean models (`Driver/C12.lean`, ops K / B / P) on the very doubles the
-implementation saw (as exact rationals); the eigenvector `numpy.linalg.eigh` produced is captured by
-wrapping `numpy.linalg.eigh` from here (no source hook) and *certified* by the proved checker `isTopEig`.
+call is replayed through the Lean models (`Driver/C12.lean`, ops K / B / P and, for the default atom-ordering
+search `algorithm='hungarian_uno'`, M / U / O) on the very doubles the implementation saw (as exact rationals);
+the eigenvector `numpy.linalg.eigh` produced is captured by wrapping `numpy.linalg.eigh` from here (no source
+hook) and *certified* by the proved checker `isTopEig`; the cost matrix handed to `linear_sum_assignment`, its
+reduced matrix, and the edges handed to / matchings returned by `uno` are captured by wrapping the module-level
+names `align.linear_sum_assignment` and `align.uno`.
 Oracle: a direct Python statement of the property on the implementation's outputs (independent of Lean).
 """
 from __future__ import annotations
@@ -19,8 +22,27 @@ import numpy as np
 
 from common import Ctx, Finding, Outcome, err_class
 
+def _nx_importable() -> bool:
+    """networkx on the path (./check puts the private .work/site there) — QCEL_VERIF_NO_NX=1 forces the fallback (used
+    to test that the check still passes without the optional package)"""
+    import os
+
+    if os.environ.get("QCEL_VERIF_NO_NX"):
+        return False
+    try:
+        import networkx  # noqa
+
+        return True
+    except Exception:
+        return False
+
+
+NX_AT_IMPORT = _nx_importable()
+
 PROPERTY = "C12"
-LEAN_TARGETS = ["QcelVerif.Props.C12", "QcelVerif.Lemmas.QuatSurj", "QcelVerif.Lemmas.RigidMotion", "QcelVerif.Props.C12Full", "QcelVerif.Driver.C12"]
+LEAN_TARGETS = ["QcelVerif.Props.C12", "QcelVerif.Lemmas.QuatSurj", "QcelVerif.Lemmas.RigidMotion", "QcelVerif.Props.C12Full",
+                "QcelVerif.Model.UnoOrderings", "QcelVerif.Lemmas.UnoEnum", "QcelVerif.Lemmas.UnoAssemble", "QcelVerif.Props.C12Uno",
+                "QcelVerif.Driver.C12"]
 DRIVER = "QcelVerif/Driver/C12.lean"
 THEOREMS = [
     ("QcelVerif.Kabsch.quatRot_orthogonal", "|q|^2 = 1 -> U(q) U(q)^T = I and U(q)^T U(q) = I for the nine entries written at align.py:544-552 (any commutative ring)"),
@@ -50,20 +72,52 @@ THEOREMS = [
     ("QcelVerif.B787.loop_best_le", "the trial loop ends with best <= every eligible trial RMSD, or it stopped early with best < a_convergence and run_to_completion off"),
     ("QcelVerif.B787.best_is_min", "run_to_completion: best (rounded to 1e-8 A) is <= every plain trial and every mirrored trial when the mirror pass is on"),
     ("QcelVerif.B787.sel_attains_best", "the held recipe is one of the trials and best is exactly that trial's rounded RMSD"),
+    # --- the default atom-ordering search algorithm='hungarian_uno' (Props/C12Uno.lean, Model/UnoOrderings.lean)
+    ("QcelVerif.Uno.enum_complete_sound", "for every k and every bipartite graph on k rows x k columns, the model's enumeration `matchings` lists exactly the perfect matchings (sub[j] = row matched to column j: length k, rows distinct and < k, every (sub[j], j) an edge) and lists each once"),
+    ("QcelVerif.Uno.mem_zeroEdges", "(i,j) is in the model's edge list iff i,j < k and reduced[i,j] < uno_cutoff (np.argwhere(reducedcost < uno_cutoff), align.py:386)"),
+    ("QcelVerif.Uno.optimal_is_candidate", "if the solver's (assignment, reduced matrix) is an exact C14 certificate for the k x k class cost matrix and uno_cutoff > 0, every minimum-cost complete assignment is among the enumerated candidates (via C14's optimal_on_zeros)"),
+    ("QcelVerif.Uno.near_optimal_is_candidate", "same hypotheses, quantitative: every complete assignment whose cost is < optimum + uno_cutoff is among the enumerated candidates (what the cutoff is for)"),
+    ("QcelVerif.Uno.rigid_copy_preserves_dist2", "c_a = r_a.A + s, c_b = r_b.A + s with A.A^T = I  =>  |c_a - c_b|^2 = |r_a - r_b|^2 (any commutative ring): a rigid copy has the same interatomic distances"),
+    ("QcelVerif.Uno.true_class_cost_zero", "the class cost is (sumCC[i]-sumRR[j])^2 with sum[x] = 100 * sum of reciprocal distances from x to the atoms of its own class; if the true atom map carries the class onto the class and preserves the reciprocal-distance matrix, its within-class form is a bijection, reads back as the true map, and every entry costs exactly 0"),
+    ("QcelVerif.Uno.true_class_is_candidate", "per class: exact certificate + cutoff > 0 + true map preserving class and distances => the true map restricted to the class is one of the orderings filter_hungarian_uno yields"),
+    ("QcelVerif.Uno.true_map_is_candidate", "for any number of atoms and classes: if the true map is a bijection respecting labels and all reciprocal distances (exact rigid copy + permutation), every class's solver answer is an exact certificate and uno_cutoff > 0, then candidatesUno (classes, per-class matchings, product, assembly — align.py:318-328,386-400,426-431) returns a list containing [pi 0, ..., pi (n-1)]"),
+    ("QcelVerif.Uno.uno_recovery_best_le", "with B787.best_is_min: if the search runs to completion over candidate list L and the true map is in L, the returned rounded RMSD is <= the trial RMSD of the true map (which Kabsch.recovery_rigid bounds by the certificate slack)"),
 ]
+NX_TEXT_ABSENT = (
+    "networkx is absent: algorithm='hungarian_uno' cannot run; wherever the code would ask for it (B787's mirror pre-test hard-codes the default, "
+    "Molecule.align never forwards `algorithm`) the harness substitutes 'permutative' by wrapping the module-level _plausible_atom_orderings — so "
+    "candidate generation by Hungarian/Uno is NOT exercised, everything downstream of the candidate list is"
+)
+NX_TEXT_PRESENT = (
+    "networkx is available to the check (private .work/site): B787's DEFAULT search algorithm='hungarian_uno' runs unsubstituted wherever the code "
+    "asks for it (explicitly, by default, in the mirror pre-test with its hard-coded uno_cutoff=0.1, in Molecule.align/scramble) and every such "
+    "candidate generation is replayed through Model/UnoOrderings.lean; end to end it is exercised on shuffled rigid copies of 2-30 atoms "
+    "(symmetric molecules with classes of 1-5 equivalent atoms, so up to 120 matchings per class; class sizes are bounded because ALL k! "
+    "within-class maps of k equivalent atoms are candidates) with uno_cutoff in {default 1e-3, 0.1, 1e-2, 1e-5}; smaller cutoffs, cutoffs placed "
+    "exactly at / one ulp above an entry of the reduced matrix, and cutoffs up to 2000 are used only on the direct route "
+    "(_plausible_atom_orderings, candidate set vs model) — the property does not speak of uno_cutoff, and a cutoff at the float-noise level "
+    "(~1e-20) can exclude the true map by design; uno's enumeration ORDER is not modelled: B787's result depends on it only through ties "
+    "(first of several equally good maps is held; mols_align stops at the first candidate below a_convergence — the known finding), "
+    "so the trial-loop model is fed the implementation's order"
+)
+NX_TEXT = NX_TEXT_PRESENT if NX_AT_IMPORT else NX_TEXT_ABSENT
 TRUSTED_BASE = [
     "Lean 4.33 kernel + Mathlib (ring, linear_combination, linarith, nlinarith, field_simp, norm_num; Real.sqrt from Mathlib.Analysis.Real.Sqrt for the surjectivity theorem); axioms per theorem audited on every run",
     "hand-written models Model/Kabsch.lean (align.py:473-554, models/align.py:70-87) and Model/B787.lean (align.py:143-241, 296-345, 423-431), tied by differential correspondence on the generated stream",
     "numpy.linalg.eigh is NOT modelled and NOT trusted: its eigenvector is captured per call and certified by the proved checker isTopEig (exact rational arithmetic) — accepted certificate => optimality theorem applies to that call",
     "numpy elementwise IEEE arithmetic / np.linalg.norm / np.around / distance_matrix (sqrt): compared against exact rational values under stated tolerances, distance matrices and per-trial rounded RMSDs are inputs of the discrete models",
-    "harness/c12.py: generators, the capture wrappers (numpy.linalg.eigh, align.kabsch_align, align.B787, align._plausible_atom_orderings), the Python oracle (uses numpy.linalg.svd for the independent optimum)",
+    "harness/c12.py: generators, the capture wrappers (numpy.linalg.eigh, align.kabsch_align, align.B787, align._plausible_atom_orderings, align.linear_sum_assignment, align.uno), the Python oracle (uses numpy.linalg.svd for the independent optimum)",
+    "hand-written model Model/UnoOrderings.lean of the hungarian_uno candidate generation (align.py:296-328, 346-400, 407-431), tied by differential correspondence per call: cost matrix handed to the solver (exact (sumCC[i]-sumRR[j])^2 from independently computed reciprocal distances vs the captured doubles, tolerance 2|a-b|d + d^2 with d = 1e-12(|a|+|b|+1)), zero-edge list (exact), set of matchings (exact, with multiplicity), candidate orderings (exact, as a multiset)",
+    "the Hungarian solver (linear_sum_assignment) is property C14's subject: here its reduced matrix is an input of the model, and C14's exact checker certGap is evaluated on every class call (gap <= 1e-9 * (1 + max cost) * k demanded); theorems (b),(c) assume an EXACT certificate — the float gap between 'certGap small' and 'certOK' is not bridged by proof",
+    "uno (gph_uno_bipartite.py, networkx simple_cycles etc.) is NOT modelled as an algorithm: only its output SET is, and it is compared per call with the model's proved-complete enumeration; distance_matrix / np.reciprocal (sqrt, division) are inputs of the model",
 ]
 ASSUMPTIONS = [
     "weight=None (the only way B787 calls kabsch_align); do_plot off; verbose=0",
-    "networkx is absent: algorithm='hungarian_uno' cannot run; wherever the code would ask for it (B787's mirror pre-test hard-codes the default, Molecule.align never forwards `algorithm`) the harness substitutes 'permutative' by wrapping the module-level _plausible_atom_orderings — so candidate generation by Hungarian/Uno is NOT exercised, everything downstream of the candidate list is",
+    NX_TEXT,
     "permutative search only up to 7 atoms and class sizes <= 4 (cost n!); unrelated pairs are aligned with the fixed map only (the property speaks of a known correspondence)",
     "geometries of 2-30 atoms, pairwise distance > 0.5 bohr, coordinates within about +-12 bohr before the shift in [-10,10]^3 (pivot block: shift = pv - pv.U, redrawn until inside that cube); no 'nearly collinear' (1e-7 off-axis) inputs — exactly collinear, planar, symmetric and generic ones are generated",
     "'mirror images are matched only when requested' is read in both directions: unrequested -> mirror flag never set (all inputs); requested + chiral generic geometry (third singular value >= 0.3 bohr) -> the mirror match is found (kind oracle:mirror_requested_not_found)",
+    "the degenerate-atom-order mirror block generates only clearly chiral geometries (third singular value >= 0.35 bohr): for a NEARLY planar molecule with a fixed atom map, mols_align=True accepts the unmirrored trial (RMSD below a_convergence = 1e-3 A) before the mirror trial is made and B787's own 1e-4 post-check raises — the fixed-map sibling of C12-molsalign-truncation, seen once (replays/C12-6108cfd6b97c.json), reported and not generated",
     "known finding C12-molsalign-truncation: with mols_align truthy the permutation search stops at the first candidate below a_convergence; a deliberate nearly-symmetric block exercises it and the class is matched on the recorded trial RMSDs only",
     "full optimality over SO(3) is proved over R (Props/C12Full.lean: surjectivity of unit quaternions onto SO(3), optimality against every proper rotation and every proper rigid motion); over Q, where the driver executes, the comparison family is the rational rotations U(p)/|p|^2; rotation uniqueness for non-collinear sets is checked by the oracle only",
     "the permutative filter (np.allclose, atol=1.0) is modelled with exact rational comparison; knife-edge inputs (difference within one ulp of the tolerance) are not generated",
@@ -79,17 +133,38 @@ RULE = (
     "reference centred at the origin, both; centroids opposite, equal in two Cartesian components, or 1e-8..1e-4 bohr apart; unrelated and noisy "
     "second geometries are translated into the same centroid relations (shift always kept inside [-10,10]^3). The relation actually seen by the "
     "implementation is tallied under centroids:* and the class requested under pivot:*. "
-    "A case is distinct by (family, n, motion, permutation, route, flags[, pivot class, first atom of the second geometry]) and non-trivial when "
-    "the motion is not the identity, or the pair is unrelated/noisy."
+    "A 'special rotation' block (all routes): exactly 180 (also 90, 120, 270, 60) degrees about a coordinate axis, about a principal axis of the "
+    "reference (given in its principal-axis frame or as is) or about a generic axis, on elongated chain-like (family 'chain'), planar, compact, "
+    "symmetric, lattice and collinear molecules — the cases where the R/C covariance matrix is symmetric (tallied under special:*, with the sign "
+    "of its trace). A 'mirror-degenerate-order' block: clearly chiral molecules whose three atoms listed first / last in the SECOND geometry are "
+    "collinear, or whose first four are coplanar (axially chiral allene / alkyne backbones listed first), mirrored or not, run_mirror mostly "
+    "requested, B787 (both searches) and Molecule routes. "
+    "A case is distinct by (family, n, motion, permutation, route, flags[, pivot class, first atom of the second geometry, special rotation, "
+    "degenerate prefix]) and non-trivial when the motion is not the identity, or the pair is unrelated/noisy."
+    + (" With networkx: four further blocks through the DEFAULT search hungarian_uno — shuffled rigid copies of 2-30 atoms via B787 (default and "
+       "explicit algorithm, uno_cutoff default/1e-3/0.1/1e-2/1e-5, run_resorting on ordered atoms, symmetric molecules with classes of 1-5 "
+       "equivalent atoms, pivot placements), mirror images (chiral/achiral, run_mirror on/off), Molecule.scramble+align on 5-14 atoms, and direct "
+       "calls of _plausible_atom_orderings on rigid / noisy / unrelated / nearly symmetric pairs with uno_cutoff literal (1e-6 .. 2000) or placed "
+       "exactly AT an entry of the reduced matrix (edge excluded by `<`) or one ulp above it (edge included); every such call yields one M line "
+       "(cost matrices; every call up to 14 atoms, one in three beyond), one U line per atom class (edges, matchings, certGap) and one O line "
+       "(orderings)." if NX_AT_IMPORT else "")
 )
 LEVEL_TEXT = (
     "proof, partial: ring-identity and ordered-field theorems for every input about the model of kabsch_quaternion/kabsch_align/"
     "align_coordinates and the B787 trial loop; optimality holds for every call whose captured eigenvector passes the proved certificate "
     "checker (checked on every generated call), against every proper rotation and every proper rigid motion over R (surjectivity of unit "
     "quaternions onto SO(3) is proved); eigh itself, the float rounding "
-    "and rotation uniqueness are not proved; hungarian_uno candidate generation is not exercised (networkx absent)."
+    "and rotation uniqueness are not proved; "
+    + ("the default search hungarian_uno is modelled (Model/UnoOrderings.lean) and proved, for every size, to enumerate exactly the perfect "
+       "matchings of the zero-edge graph and — given an exact C14 certificate per class, a positive cutoff and an exact rigid copy + permutation — "
+       "to contain the true atom map among its candidates (cost (sumCC-sumRR)^2 is exactly 0 along it), so that with best_is_min the returned RMSD "
+       "is bounded by the true map's trial; partial: exactness replaces the floats there (solver certificate only certGap-small, class cost "
+       "~1e-20 instead of 0, absorbed by uno_cutoff — kept differential: per-call certGap, edge list, matching set and candidate set compared "
+       "exactly with the model, applied map looked up among the candidates), uno's algorithm/order and the Hungarian solver itself (C14) are not "
+       "re-proved here." if NX_AT_IMPORT else
+       "hungarian_uno candidate generation is modelled and proved (Props/C12Uno.lean) but NOT exercised in this run (networkx absent: 'permutative' substituted).")
 )
-TECHNIQUE = "Lean 4 proof (ring identities + exact certificate checker soundness) + per-call certification of numpy.linalg.eigh + differential correspondence + Python oracle"
+TECHNIQUE = "Lean 4 proof (ring identities + exact certificate checker soundness + matching-enumeration completeness) + per-call certification of numpy.linalg.eigh + differential correspondence + Python oracle"
 
 B2A = None  # filled from qcelemental.constants on first use
 DELTA = Fraction(1, 10**11)  # | |q|^2 - 1 | allowed in the certificate
@@ -102,6 +177,8 @@ _A = None  # qcelemental.molutil.align module
 _ORIG = {}
 REC = None
 HAVE_NX = False
+_UNO_CACHE = {}  # (geometries, labels, cutoff) -> capture_uno result; the search is a deterministic function of these
+UNO_SINK = None  # while a list: every linear_sum_assignment / uno call made from align.py is appended (capture_uno)
 
 
 class Recorder:
@@ -111,6 +188,7 @@ class Recorder:
         self.direct = []  # kabsch_align calls outside any B787
         self.cur_kabsch = None
         self.substituted = 0
+        self.plaus = []  # every hungarian_uno call of _plausible_atom_orderings: args + orderings actually yielded
 
 
 def _install():
@@ -122,13 +200,10 @@ def _install():
 
     _A = A
     B2A = qcel.constants.bohr2angstroms
-    try:
-        import networkx  # noqa
-
-        HAVE_NX = True
-    except Exception:
-        HAVE_NX = False
+    HAVE_NX = _nx_importable()
     _ORIG["eigh"] = np.linalg.eigh
+    _ORIG["lsa"] = A.linear_sum_assignment
+    _ORIG["uno"] = A.uno
     _ORIG["kabsch_align"] = A.kabsch_align
     _ORIG["B787"] = A.B787
     _ORIG["plaus"] = A._plausible_atom_orderings
@@ -180,18 +255,82 @@ def _install():
             algorithm = "permutative"
             if REC is not None:
                 REC.substituted += 1
-        return _ORIG["plaus"](ref, current, rgeom, cgeom, algorithm=algorithm, verbose=verbose, uno_cutoff=uno_cutoff)
+        gen = _ORIG["plaus"](ref, current, rgeom, cgeom, algorithm=algorithm, verbose=verbose, uno_cutoff=uno_cutoff)
+        if REC is None or algorithm != "hungarian_uno":
+            return gen
+        ent = {"uno_cutoff": float(uno_cutoff), "yielded": []}
+        (REC.stack[-1].setdefault("plaus", []) if REC.stack else REC.plaus).append(ent)
+
+        def relay():
+            for x in gen:
+                ent["yielded"].append([int(v) for v in x])
+                yield x
+
+        return relay()
+
+    def lsa_w(cost, *args, **kw):
+        if UNO_SINK is None:
+            return _ORIG["lsa"](cost, *args, **kw)
+        if not kw.get("return_cost", False) or args:
+            return _ORIG["lsa"](cost, *args, **kw)
+        cin = np.array(cost, dtype=float, copy=True)
+        res = _ORIG["lsa"](cost, *args, **kw)
+        (rows, cols), red = res
+        UNO_SINK.append(("lsa", {"cost": cin, "rows": [int(x) for x in rows], "cols": [int(x) for x in cols],
+                                 "red": np.array(red, dtype=float, copy=True)}))
+        return res
+
+    def uno_w(edges, match=None, *args, **kw):
+        res = _ORIG["uno"](edges, match, *args, **kw)
+        if UNO_SINK is not None:
+            UNO_SINK.append(("uno", {"edges": [(int(e[0]), int(e[1])) for e in edges],
+                                     "match": None if match is None else [(int(m[0]), int(m[1])) for m in match],
+                                     "out": [[(int(p[0]), int(p[1])) for p in m] for m in res]}))
+        return res
 
     np.linalg.eigh = eigh_w
     A.kabsch_align = kabsch_w
     A.B787 = b787_w
     A._plausible_atom_orderings = plaus_w
+    A.linear_sum_assignment = lsa_w
+    A.uno = uno_w
     import qcelemental.molutil as mu
 
     if getattr(mu, "B787", None) is _ORIG["B787"]:
         mu.B787 = b787_w
     if getattr(mu, "kabsch_align", None) is _ORIG["kabsch_align"]:
         mu.kabsch_align = kabsch_w
+
+
+def capture_uno(runiq, cuniq, R, C, uno_cutoff):
+    """Run the real `_plausible_atom_orderings(..., algorithm='hungarian_uno')` to exhaustion and return
+    (candidate orderings in the implementation's order, per-class records).  One record per atom class, in the order
+    the classes are processed (first appearance in `runiq`): the matrix handed to `linear_sum_assignment`, its answer
+    (rows, cols, reduced matrix), and the `edges` / starter match / output of `uno` — captured by wrapping the two
+    module-level names `align.linear_sum_assignment` and `align.uno` (no source hook)."""
+    global UNO_SINK
+    _install()
+    key = (np.asarray(R, dtype=float).tobytes(), np.asarray(C, dtype=float).tobytes(), tuple(str(x) for x in runiq), tuple(str(x) for x in cuniq), float(uno_cutoff))
+    if key in _UNO_CACHE:
+        return _UNO_CACHE[key]
+    prev, UNO_SINK = UNO_SINK, []
+    try:
+        with contextlib.redirect_stdout(io.StringIO()):
+            cands = [[int(x) for x in c] for c in
+                     _ORIG["plaus"](runiq, cuniq, R, C, algorithm="hungarian_uno", verbose=0, uno_cutoff=uno_cutoff)]
+        log = UNO_SINK
+    finally:
+        UNO_SINK = prev
+    classes = []
+    for kind, rec in log:
+        if kind == "lsa":
+            classes.append(dict(rec))
+        elif kind == "uno" and classes and "edges" not in classes[-1]:
+            classes[-1].update(rec)
+    if len(_UNO_CACHE) > 8:
+        _UNO_CACHE.clear()
+    _UNO_CACHE[key] = (cands, classes)
+    return cands, classes
 
 
 @contextlib.contextmanager
@@ -340,6 +479,14 @@ def gen_geometry(rng, fam, n):
             pts = list(itertools.product(range(-2, 3), repeat=3))
             sel = rng.sample(pts, n)
             G = np.array(sel, dtype=float) * rng.choice([1.0, 1.5, 2.0])
+        elif fam == "chain":
+            # elongated, chain-like, non-collinear: zigzag / helix along an axis (second moment along the axis dominates)
+            step = rng.uniform(1.0, 1.6)
+            amp = rng.uniform(0.25, 0.9)
+            dphi = rng.choice([math.pi, 2 * math.pi / 3, math.pi / 2, rng.uniform(0.3, 3.0)])
+            G = np.array([[amp * math.cos(i * dphi + rng.uniform(-0.05, 0.05)), amp * math.sin(i * dphi + rng.uniform(-0.05, 0.05)),
+                           step * i + rng.uniform(-0.1, 0.1)] for i in range(n)])
+            G = G @ quat_rot_exact(gen_quat(rng)) + np.array([rng.uniform(-3, 3) for _ in range(3)])
         else:
             raise ValueError(fam)
         if G is not None and len(G) == n and min_dist(G) > 0.55:
@@ -474,12 +621,117 @@ def pair_target_centroid(rng, R, pivot):
     return cen
 
 
-def make_case(rng, route, fam, n, *, related="rigid", perm=False, mirror=False, flags=None, maxclass=None, tag=None, pivot=None):
+def principal_axes(G):
+    """eigenvectors (columns) of the unit-weighted second-moment tensor about the centroid"""
+    X = np.asarray(G, dtype=float) - np.mean(G, axis=0)
+    _, V = np.linalg.eigh(X.T @ X)
+    if np.linalg.det(V) < 0:
+        V[:, 0] = -V[:, 0]
+    return V
+
+
+def rodrigues(axis, deg):
+    """proper rotation by `deg` degrees about `axis` (float matrix; exact 0/+-1 entries for coordinate axes and multiples of 90)"""
+    a = np.asarray(axis, dtype=float)
+    a = a / np.linalg.norm(a)
+    th = math.radians(deg)
+    c, sn = (round(math.cos(th)), round(math.sin(th))) if deg % 90 == 0 else (math.cos(th), math.sin(th))
+    Kx = np.array([[0, -a[2], a[1]], [a[2], 0, -a[0]], [-a[1], a[0], 0]])
+    return c * np.eye(3) + sn * Kx + (1 - c) * np.outer(a, a)
+
+
+SPECIAL_ANGLES = [180, 180, 180, 180, 90, 120, 270, 60]
+
+
+def gen_special(rng):
+    return {"frame": rng.choice(["principal", "principal", "asis"]), "axis": rng.choice(["coord", "principal", "principal", "generic"]),
+            "k": rng.randrange(3), "deg": rng.choice(SPECIAL_ANGLES)}
+
+
+def special_rotation(rng, R, special):
+    """the rotation matrix A (row-vector convention c = r.A + s) of a special motion: exactly 180 / 90 / 120 ... degrees about a
+    coordinate axis, about a principal axis of the reference, or about a generic axis"""
+    if special["axis"] == "coord":
+        ax = np.eye(3)[special["k"]]
+    elif special["axis"] == "principal":
+        ax = principal_axes(R)[:, special["k"]]
+    else:
+        while True:
+            ax = np.array([rng.uniform(-1, 1) for _ in range(3)])
+            if np.linalg.norm(ax) > 0.2:
+                break
+    return np.ascontiguousarray(rodrigues(ax, special["deg"]).T)
+
+
+def degenerate_prefix(rng, B, kind):
+    """make the listed-first (or listed-last) atoms of B degenerate: three collinear, or four coplanar; None if the distance
+    constraint cannot be kept"""
+    B = np.array(B, dtype=float)
+    n = len(B)
+    idx = list(range(n)) if kind in ("first3", "coplanar4") else list(range(n - 1, -1, -1))
+    for _ in range(40):
+        G = B.copy()
+        if kind in ("first3", "last3"):
+            u = np.array([rng.uniform(-1, 1) for _ in range(3)])
+            u = u / (np.linalg.norm(u) or 1.0)
+            if rng.random() < 0.3:
+                u = np.eye(3)[rng.randrange(3)]
+            t1, t2 = rng.uniform(0.9, 1.6), rng.uniform(2.0, 3.2)
+            if rng.random() < 0.5:
+                t1 = -t1  # middle atom of the triple listed first / second
+            G[idx[1]] = G[idx[0]] + t1 * u
+            G[idx[2]] = G[idx[0]] + t2 * u
+        else:
+            a, b = rng.uniform(-1.5, 1.5), rng.uniform(-1.5, 1.5)
+            G[idx[3]] = G[idx[0]] + a * (G[idx[1]] - G[idx[0]]) + b * (G[idx[2]] - G[idx[0]])
+        if min_dist(G) > 0.55:
+            return G
+        B = B + np.array([[rng.uniform(-0.3, 0.3) for _ in range(3)] for _ in range(n)])
+    return None
+
+
+def case_rotation(case):
+    """the applied rotation matrix A (c = r.A + s) of a rigid case"""
+    if "rotfloat" in case:
+        return unhex(case["rotfloat"]).reshape(3, 3)
+    return quat_rot_exact(case["quat"])
+
+
+def make_case(rng, route, fam, n, *, related="rigid", perm=False, mirror=False, flags=None, maxclass=None, tag=None, pivot=None,
+              special=None, prefix=None):
     R = gen_geometry(rng, fam, n)
     labs = ["O", "H", "H", "C", "N", "F"][:n] if fam == "nearsym" else gen_classes(rng, n, maxclass)
+    pm_pre = None
+    if prefix:
+        # the SECOND geometry's atom order is C[i] = moved(R[pm[i]]): the degenerate atoms must be listed first/last THERE
+        pm_pre = list(range(n))
+        if perm:
+            rng.shuffle(pm_pre)
+        # clearly chiral geometries only (third singular value >= 0.35 bohr, cf. ASSUMPTIONS): a NEARLY planar molecule nearly
+        # coincides with its mirror image, and mols_align=True then accepts the unmirrored trial below a_convergence before
+        # the mirror trial is made (the fixed-map sibling of known finding C12-molsalign-truncation; seen on seed 3)
+        Bd = None
+        for _ in range(60):
+            Bd = degenerate_prefix(rng, R, prefix)
+            if Bd is not None and len(Bd) >= 4 and collinearity(Bd)[2] >= 0.35:
+                break
+            Bd = None
+            R = gen_geometry(rng, fam, n)
+        if Bd is not None:
+            R = np.empty_like(Bd)
+            for i in range(n):
+                R[pm_pre[i]] = Bd[i]
+            R = np.ascontiguousarray(R)
+    if special and special.get("frame") == "principal":
+        cen = R.mean(0)
+        R = np.ascontiguousarray((R - cen) @ principal_axes(R) + (cen if rng.random() < 0.6 else 0.0))
     case = {"route": route, "fam": fam, "n": n, "related": related, "runiq": labs, "flags": dict(flags or {}), "R": hexl(R)}
     if tag:
         case["tag"] = tag
+    if special:
+        case["special"] = dict(special)
+    if prefix:
+        case["prefix"] = prefix
     if pivot:
         # placement of the reference: centred at the origin, or with its centroid well away from it
         case["pivot"] = pivot
@@ -495,12 +747,16 @@ def make_case(rng, route, fam, n, *, related="rigid", perm=False, mirror=False, 
     if related in ("rigid", "noisy", "near"):
         p = gen_quat(rng)
         s = gen_shift(rng)
+        Asp = special_rotation(rng, R, special) if special else None
         if pivot:
             for attempt in range(60):
                 p = nonidentity_quat(rng) if attempt < 59 else (50, 1, 2, 1)
-                s = [float(x) for x in pivot_shift(rng, R, quat_rot_exact(p), pivot)]
+                s = [float(x) for x in pivot_shift(rng, R, Asp if Asp is not None else quat_rot_exact(p), pivot)]
                 if max(abs(x) for x in s) <= 10.0:  # the quantifier's shift range
                     break
+            else:
+                if Asp is not None:
+                    s = gen_shift(rng)
         if related == "near":
             p = (1, 0, 0, 0)
             # geometry away from the coordinate planes so that rtol*|c| dominates
@@ -511,6 +767,10 @@ def make_case(rng, route, fam, n, *, related="rigid", perm=False, mirror=False, 
             case["R"] = hexl(R)
             s = [rng.choice([1e-6, 2e-5, -1e-5]), rng.choice([0.0, 1e-5]), 0.0]
         A = quat_rot_exact(p)
+        if Asp is not None:
+            A = Asp
+            p = (0, 0, 0, 0)  # marker: the rotation is the float matrix stored under "rotfloat"
+            case["rotfloat"] = hexl(A)
         C0 = R @ A + np.array(s)
         if related == "near" and rng.random() < 0.4:  # tiny rotation instead of tiny shift
             th = rng.choice([2e-6, 5e-6])
@@ -527,7 +787,9 @@ def make_case(rng, route, fam, n, *, related="rigid", perm=False, mirror=False, 
             C0 = C0.copy()
             C0[:, 1] = -C0[:, 1]
         pm = list(range(n))
-        if perm:
+        if pm_pre is not None:
+            pm = pm_pre
+        elif perm:
             rng.shuffle(pm)
         C = C0[pm]
         case.update({"quat": list(p), "shift": [float(x).hex() for x in s], "perm": pm, "mirrored": bool(mirror),
@@ -651,6 +913,136 @@ def gen_cases(ctx: Ctx):
             fl = {"run_mirror": mirrored or rng.random() < 0.15, "run_resorting": rng.random() < 0.2}
             yield make_case(rng, "molecule", fam, n, related="rigid", perm=perm, mirror=mirrored, flags=fl, maxclass=3,
                             pivot=rng.choice(PIVOTS), tag="pivot")
+    # --- SR: special rotations — exactly 180 (also 90, 120, 270, 60) degrees about coordinate axes, about principal axes of
+    #         the reference (given in its principal-axis frame or as is) and about generic axes, on elongated chain-like,
+    #         planar, compact and symmetric molecules: there the R/C covariance matrix is symmetric, q = (1,0,0,0) is an
+    #         eigenvector of F but not the leading one, eigenvalues of F pair up
+    for _ in range(sc(700, 3000)):
+        fam = rng.choice(["chain", "chain", "chain", "planar", "generic", "decimal", "symmetric", "lattice", "collinear"])
+        sp = gen_special(rng)
+        u = rng.random()
+        pv = rng.choice(PIVOTS) if rng.random() < 0.3 else None
+        nlo = 3 if fam == "chain" else 2
+        if u < 0.3:
+            yield make_case(rng, "kabsch", fam, rng.randint(nlo, 30), related="rigid", special=sp, pivot=pv, tag="special-rotation")
+        elif u < 0.65:
+            fl = {"atoms_map": True, "mols_align": rng.choice([False, False, True])}
+            yield make_case(rng, "b787", fam, rng.randint(nlo, 30), related="rigid", flags=fl, special=sp, pivot=pv, tag="special-rotation")
+        elif u < 0.88:
+            fl = {"atoms_map": False, "mols_align": rng.choice([False, True, True, 1e-5]), "run_to_completion": rng.random() < 0.3}
+            if not HAVE_NX or rng.random() < 0.5:
+                fl["algorithm"] = "permutative"
+            big = "algorithm" not in fl and fam in ("chain", "generic", "decimal")  # default search: larger molecules
+            n = rng.randint(nlo, 14 if big else 7)
+            yield make_case(rng, "b787", fam, n, related="rigid", perm=True, flags=fl, maxclass=(5 if big else 4),
+                            special=sp, pivot=pv, tag="special-rotation")
+        else:
+            fl = {"run_mirror": rng.random() < 0.15, "run_resorting": rng.random() < 0.2}
+            yield make_case(rng, "molecule", fam, rng.randint(nlo, 6), related="rigid", perm=rng.random() < 0.5, flags=fl, maxclass=3,
+                            special=sp, pivot=pv, tag="special-rotation")
+    # --- MD: mirror images of chiral molecules whose atom ORDER is degenerate in the second geometry: the three atoms listed
+    #         first (or last) are collinear, or the first four coplanar (axially chiral allenes X2C=C=CY2, X-C#C-..., listed
+    #         backbone first); run_mirror mostly requested
+    for _ in range(sc(300, 1300)):
+        n = rng.randint(5, 7)
+        mirrored = rng.random() < 0.8
+        run_mirror = rng.random() < 0.8
+        perm = rng.random() < 0.6
+        sure = (not mirrored) or run_mirror
+        fl = {"atoms_map": not perm, "run_mirror": run_mirror, "mols_align": rng.choice([False, True]) if sure else False,
+              "run_to_completion": rng.random() < 0.2}
+        if not HAVE_NX or rng.random() < 0.5:
+            fl["algorithm"] = "permutative"
+        yield make_case(rng, "b787", "generic", n, related="rigid", perm=perm, mirror=mirrored, flags=fl, maxclass=3,
+                        prefix=rng.choice(["first3", "first3", "last3", "coplanar4"]), tag="mirror-degenerate-order",
+                        pivot=(rng.choice(PIVOTS) if rng.random() < 0.2 else None))
+    for _ in range(sc(60, 300)):
+        n = rng.randint(5, 6)
+        mirrored = rng.random() < 0.7
+        fl = {"run_mirror": mirrored or rng.random() < 0.3, "run_resorting": rng.random() < 0.2}
+        yield make_case(rng, "molecule", "generic", n, related="rigid", perm=rng.random() < 0.5, mirror=mirrored, flags=fl, maxclass=3,
+                        prefix=rng.choice(["first3", "last3", "coplanar4"]), tag="mirror-degenerate-order")
+    if not HAVE_NX:
+        return
+    # ================= blocks that need networkx: B787's DEFAULT search algorithm='hungarian_uno' =================
+    # (appended after every other block, so the stream above is the same with and without networkx)
+
+    def sym_n():
+        n = rng.choice([3, 4, 4, 5, 6, 6, 7, 8, 8, 10, 12])
+        return n, (5 if n <= 6 else 4 if n <= 8 else 3)  # class sizes bounded: all k! within-class maps are candidates
+
+    # --- U: shuffled rigid copies through the default search, 2-30 atoms; symmetric molecules with classes of 1-5
+    #        equivalent atoms (several matchings per class); default / explicit algorithm; uno_cutoff default or given
+    for _ in range(sc(650, 3400)):
+        fam = rng.choice(["generic", "generic", "decimal", "planar", "collinear", "lattice", "symmetric", "symmetric", "symmetric"])
+        if fam == "symmetric":
+            n, mc = sym_n()
+        else:
+            n, mc = rng.randint(2, 30), rng.choice([None, None, 6, 3, 2])
+            if mc is not None and n > 4 * mc:
+                mc = None
+        fl = {"atoms_map": False, "mols_align": rng.choice([False, True, True, 1e-5]), "run_to_completion": rng.random() < 0.3}
+        perm = True
+        u = rng.random()
+        if u < 0.12:  # resorting machinery although the atoms are ordered
+            fl.update({"atoms_map": True, "run_resorting": True})
+            perm = False
+        if rng.random() < 0.5:
+            fl["algorithm"] = "hungarian_uno"
+        if rng.random() < 0.4:
+            fl["uno_cutoff"] = rng.choice([1.0e-3, 0.1, 1.0e-2, 1.0e-5])
+        yield make_case(rng, "b787", fam, n, related="rigid", perm=perm, flags=fl, maxclass=mc, tag="uno",
+                        pivot=(rng.choice(PIVOTS) if rng.random() < 0.3 else None))
+    # --- UM: mirror images through the default search (chiral: generic n>=4; achiral: planar/collinear/symmetric)
+    for _ in range(sc(200, 900)):
+        fam = rng.choice(["generic", "decimal", "generic", "planar", "collinear", "symmetric"])
+        if fam == "symmetric":
+            n, mc = sym_n()
+        else:
+            n, mc = (rng.randint(4, 12) if fam in ("generic", "decimal") else rng.randint(2, 12)), 4
+        mirrored = rng.random() < 0.7
+        run_mirror = rng.random() < 0.65
+        perm = rng.random() < 0.7
+        sure = (not mirrored) or fam in ("planar", "collinear") or (fam == "generic" and run_mirror)
+        fl = {"atoms_map": not perm, "run_mirror": run_mirror, "mols_align": rng.choice([False, True]) if sure else False,
+              "run_to_completion": rng.random() < 0.2}
+        yield make_case(rng, "b787", fam, n, related="rigid", perm=perm, mirror=mirrored, flags=fl, maxclass=mc, tag="uno-mirror")
+    # --- UW: Molecule.scramble + Molecule.align (always the default search) on larger molecules
+    for _ in range(sc(120, 600)):
+        fam = rng.choice(["generic", "decimal", "planar", "symmetric", "lattice", "collinear"])
+        if fam == "symmetric":
+            n, mc = sym_n()
+        else:
+            n, mc = rng.randint(5, 14), 5
+        fl = {"run_mirror": rng.random() < 0.15, "run_resorting": rng.random() < 0.2}
+        yield make_case(rng, "molecule", fam, n, related="rigid", perm=rng.random() < 0.8, flags=fl, maxclass=mc, tag="uno")
+    # --- UP: the candidate generator called directly: thresholds exactly AT / one ulp ABOVE an entry of the reduced
+    #        matrix (near-ties just outside / inside uno_cutoff), literal cutoffs from 1e-6 to 50, rigid copies, noisy
+    #        copies, nearly symmetric and unrelated second geometries (many distinct reduced-matrix entries)
+    for _ in range(sc(550, 3000)):
+        fam = rng.choice(["generic", "decimal", "planar", "collinear", "lattice", "symmetric", "symmetric", "nearsym"])
+        rel = rng.choice(["rigid", "rigid", "noisy", "unrelated"]) if fam != "nearsym" else "rigid"
+        big = rng.random() < 0.25 and fam not in ("symmetric", "nearsym")
+        if fam == "symmetric":
+            n, mc = sym_n()
+        elif fam == "nearsym":
+            n, mc = rng.randint(3, 6), None
+        elif big:
+            n, mc = rng.randint(13, 30), None
+        else:
+            n, mc = rng.randint(2, 12), (5 if rng.random() < 0.8 else None)
+        m = rng.random()
+        if m < 0.2:
+            cm = {"kind": "literal", "value": 1.0e-3}
+        elif m < 0.3:
+            cm = {"kind": "literal", "value": 0.1}
+        elif m < 0.4 and not big and mc is not None:
+            cm = {"kind": "literal", "value": rng.choice([1.0e-6, 1.0, 50.0, 2000.0])}
+        else:
+            cm = {"kind": rng.choice(["entry", "entry+ulp"]), "rank": rng.randint(0, 5 if big else 12)}
+        c = make_case(rng, "plaus", fam, n, related=rel, perm=(rel != "unrelated"), flags={}, maxclass=mc, tag="uno-direct")
+        c["cutmode"] = cm
+        yield c
 
 
 # ------------------------------------------------------------------------------------------------
@@ -745,6 +1137,149 @@ def cmp_kabsch(case_id, R, C, amap, mirror, kab, impl_rot, impl_shift, impl_fina
     return cmp
 
 
+def class_positions(runiq, cuniq):
+    """(keys in order of first appearance in runiq, where, cwhere) as align.py:318-328 builds them"""
+    keys = []
+    for u in runiq:
+        if u not in keys:
+            keys.append(u)
+    where = [[i for i, u in enumerate(runiq) if u == k] for k in keys]
+    cwhere = [[i for i, u in enumerate(cuniq) if u == k] for k in keys]
+    return keys, where, cwhere
+
+
+def nre_independent(G):
+    """reciprocal-distance matrix with zero diagonal, computed here (not with the library's distance_matrix)"""
+    G = np.asarray(G, dtype=float)
+    d = np.sqrt(((G[:, None, :] - G[None, :, :]) ** 2).sum(-1))
+    with np.errstate(divide="ignore"):
+        r = 1.0 / d
+    r[np.diag_indices(len(G))] = 0.0
+    return r
+
+
+def mat_str(M):
+    return ";".join(frs(row) for row in np.asarray(M, dtype=float))
+
+
+def parse_mat(sx):
+    return [[parse_rat(x) for x in row.split()] for row in sx.split(";")]
+
+
+def uno_lines(runiq, cuniq, R, C, cutoff, cands, classes, case_id, out: Outcome, pend, where):
+    """correspondence for one hungarian_uno candidate generation (align.py:346-431) against Model/UnoOrderings.lean:
+    M — the cost matrix handed to the solver per class (exact model value vs the captured doubles, tolerance stated);
+    U — per class: zero-edge list (exact), the SET of perfect matchings uno enumerated (exact, multiplicities included),
+        C14's exact optimality gap of the solver's answer on that matrix;
+    O — the candidate atom orderings (as a sorted multiset)."""
+    keys, where_r, where_c = class_positions(list(runiq), list(cuniq))
+    if len(classes) != len(keys) or any("edges" not in c for c in classes):
+        out.mismatches.append(Finding("mismatch:U", case_id, observed=f"{len(classes)} solver/uno call pairs", expected=f"{len(keys)} atom classes",
+                                      detail=f"{where}: not exactly one linear_sum_assignment + uno call per atom class"))
+        return
+    out.count("uno:calls")
+    out.count("uno:candidates:" + ("1" if len(cands) == 1 else "2-6" if len(cands) <= 6 else "7-50" if len(cands) <= 50 else ">50"))
+    cut = Fraction(float(cutoff))
+    cuts = f"{cut.numerator}/{cut.denominator}"
+    rcode = " ".join(str(keys.index(u)) for u in runiq)
+    ccode = " ".join(str(keys.index(u)) for u in cuniq)
+    # ---- M: cost matrices
+    nR, nC = nre_independent(R), nre_independent(C)
+    lineM = "|".join(["M", rcode, ccode, mat_str(nR), mat_str(nC)])
+    # 2 n^2 exact rationals per line: every call up to 14 atoms, one call in three beyond (chosen by the data, not the PRNG)
+    do_M = len(R) <= 14 or int(abs(float(np.sum(R))) * 1e6) % 3 == 0
+
+    def cmpM(ans):
+        out.count("M:lines")
+        if not ans.startswith("ok "):
+            out.mismatches.append(Finding("mismatch:M", case_id, observed="impl built cost matrices", expected=ans[:200], detail=where))
+            return
+        mats = ans[3:].split("#")
+        if len(mats) != len(classes):
+            out.mismatches.append(Finding("mismatch:M", case_id, observed=len(classes), expected=len(mats), detail=f"{where}: number of classes"))
+            return
+        for ic, (ms, cl) in enumerate(zip(mats, classes)):
+            exact = parse_mat(ms)
+            got = cl["cost"]
+            k = len(where_r[ic])
+            if got.shape != (k, k) or len(exact) != k:
+                out.mismatches.append(Finding("mismatch:M", case_id, observed=list(got.shape), expected=[k, k], detail=f"{where}: class {ic} cost matrix shape (rows = concern atoms, columns = reference atoms)"))
+                return
+            sC = [100.0 * float(np.sum(nC[np.ix_(where_c[ic], where_c[ic])][:, i])) for i in range(k)]
+            sR = [100.0 * float(np.sum(nR[np.ix_(where_r[ic], where_r[ic])][:, j])) for j in range(k)]
+            for i in range(k):
+                for j in range(k):
+                    ex = float(exact[i][j])
+                    dl = 1e-12 * (abs(sC[i]) + abs(sR[j]) + 1.0)
+                    tol = 2.0 * math.sqrt(ex) * dl + dl * dl
+                    if abs(float(got[i, j]) - ex) > tol:
+                        out.mismatches.append(Finding("mismatch:M", case_id, observed=float(got[i, j]), expected=ex,
+                                                      detail=f"{where}: class {ic} cost[{i},{j}] handed to the solver differs from (sumCC[i]-sumRR[j])^2 by more than {tol:.2e}"))
+                        return
+
+    if do_M:
+        pend.append(Pending(lineM, cmpM))
+    else:
+        out.count("M:not_sampled(n>14)")
+    # ---- U: per class
+    for ic, cl in enumerate(classes):
+        k = len(where_r[ic])
+        out.count("uno:class_size:" + (str(k) if k <= 5 else "6-10" if k <= 10 else "11-30"))
+        if cl["red"].shape != (k, k) or cl["cost"].shape != (k, k):
+            out.mismatches.append(Finding("mismatch:U", case_id, observed=list(cl["red"].shape), expected=[k, k], detail=f"{where}: class {ic} reduced matrix shape"))
+            continue
+        pairs = ";".join(f"{r},{c}" for r, c in zip(cl["rows"], cl["cols"]))
+        lineU = "|".join(["U", cuts, str(k), mat_str(cl["red"]), mat_str(cl["cost"]), pairs])
+        impl_edges = ";".join(f"{i},{j}" for i, j in cl["edges"])
+        impl_ms = []
+        shape_ok = True
+        for m in cl["out"]:
+            mm = sorted(m, key=lambda pq: pq[1])
+            if [pq[1] for pq in mm] != list(range(k)):
+                shape_ok = False
+            impl_ms.append([pq[0] for pq in mm])
+        nm = len(impl_ms)
+        out.count("uno:matchings_per_class:" + ("1" if nm == 1 else "2" if nm == 2 else "3-24" if nm <= 24 else "25+"))
+        scale = 1.0 + float(np.max(np.abs(cl["cost"]))) if k else 1.0
+
+        def cmpU(ans, ic=ic, k=k, impl_edges=impl_edges, impl_ms=impl_ms, shape_ok=shape_ok, scale=scale):
+            out.count("U:lines")
+            if not ans.startswith("ok "):
+                out.mismatches.append(Finding("mismatch:U", case_id, observed="impl enumerated matchings", expected=ans[:200], detail=f"{where}: class {ic}"))
+                return
+            d = parse_kv(ans)
+            if d["edges"] != impl_edges:
+                out.mismatches.append(Finding("mismatch:U", case_id, observed=impl_edges[:300], expected=d["edges"][:300],
+                                              detail=f"{where}: class {ic}: edges handed to uno differ from argwhere(reduced < uno_cutoff={float(cutoff)!r})"))
+            model_ms = sorted([int(x) for x in m.split(",")] for m in d["m"].split(";")) if d["m"] else []
+            if not shape_ok or sorted(impl_ms) != model_ms:
+                out.mismatches.append(Finding("mismatch:U", case_id, observed=str(sorted(impl_ms))[:400], expected=str(model_ms)[:400],
+                                              detail=f"{where}: class {ic}: matchings enumerated by uno are not exactly the perfect matchings of the zero-edge graph (each once)"))
+            if d["gap"] == "notassign" or float(parse_rat(d["gap"])) > 1e-9 * scale * max(k, 1):
+                out.mismatches.append(Finding("mismatch:U", case_id, observed=d["gap"][:80], expected=f"<= {1e-9 * scale * max(k, 1):.2e}",
+                                              detail=f"{where}: class {ic}: the solver's (assignment, reduced matrix) is not an optimality certificate for the matrix it was handed (C14 certGap)"))
+            else:
+                out.count("U:certified_gap_ok")
+
+        pend.append(Pending(lineU, cmpU))
+    # ---- O: the orderings
+    lineO = "|".join(["O", cuts, rcode, ccode, "#".join(mat_str(cl["red"]) for cl in classes)])
+    exp = sorted(cands)
+
+    def cmpO(ans):
+        out.count("O:lines")
+        if not ans.startswith("ok"):
+            out.mismatches.append(Finding("mismatch:O", case_id, observed=f"{len(exp)} orderings", expected=ans[:200], detail=where))
+            return
+        body = ans[3:]
+        got = sorted([int(x) for x in c.split(",")] for c in body.split(";")) if body else []
+        if got != exp:
+            out.mismatches.append(Finding("mismatch:O", case_id, observed=str(exp)[:400], expected=str(got)[:400],
+                                          detail=f"{where}: hungarian_uno candidate orderings (as a multiset) differ from the model's"))
+
+    pend.append(Pending(lineO, cmpO))
+
+
 def process_b787_call(ent, case_id, out: Outcome, pend, depth=0):
     """correspondence for one recorded B787 call (recursively for the nested mirror pre-test)"""
     a = ent["args"]
@@ -763,9 +1298,17 @@ def process_b787_call(ent, case_id, out: Outcome, pend, depth=0):
     where = f"B787 depth {depth}"
     out.count(f"B787:depth{depth}")
     # (a) candidate orderings
-    if run_resorting:
-        if algo != "permutative":
-            return  # networkx present: uno path is outside the model
+    if run_resorting and algo == "hungarian_uno":
+        # networkx present: the DEFAULT search runs; its candidate generation is modelled by Model/UnoOrderings.lean
+        cands, classes = capture_uno(runiq, cuniq, R, C, a["uno_cutoff"])
+        seen = [y for pl in ent.get("plaus", []) for y in pl["yielded"]]
+        if seen != cands[:len(seen)] or not seen:
+            out.mismatches.append(Finding("mismatch:O", case_id, observed=str(seen[:4])[:300], expected=str(cands[:4])[:300],
+                                          detail=f"{where}: the orderings B787 consumed are not a prefix of a second, exhaustive run of the same search"))
+        uno_lines(runiq, cuniq, R, C, a["uno_cutoff"], cands, classes, case_id, out, pend, where)
+        if not cands:
+            return
+    elif run_resorting:
         with contextlib.redirect_stdout(io.StringIO()):
             cands = [list(int(x) for x in c) for c in _ORIG["plaus"](runiq, cuniq, R, C, algorithm="permutative", verbose=0)]
         keys = []
@@ -870,8 +1413,11 @@ def truncation_info(ent):
         return None
     R, C = a["rgeom"], a["cgeom"]
     try:
-        with contextlib.redirect_stdout(io.StringIO()):
-            cands = [list(int(x) for x in c) for c in _ORIG["plaus"](a["runiq"], a["cuniq"], R, C, algorithm="permutative", verbose=0)]
+        if a["algorithm"] == "hungarian_uno" and HAVE_NX:  # the search this call actually ran
+            cands, _ = capture_uno(a["runiq"], a["cuniq"], R, C, a["uno_cutoff"])
+        else:
+            with contextlib.redirect_stdout(io.StringIO()):
+                cands = [list(int(x) for x in c) for c in _ORIG["plaus"](a["runiq"], a["cuniq"], R, C, algorithm="permutative", verbose=0)]
     except Exception:
         return None
     mirror_on = False
@@ -999,10 +1545,7 @@ def oracle_recovery(case, case_id, out: Outcome, R, rm, near, slack, rot, shift,
     s = collinearity(R)
     pm = case["perm"]
     inv = [pm.index(i) for i in range(n)]
-    if "rotfloat" in case:
-        A = unhex(case["rotfloat"]).reshape(3, 3)
-    else:
-        A = quat_rot_exact(case["quat"])
+    A = case_rotation(case)
     sh = np.array([float.fromhex(x) for x in case["shift"]])
     if len(s) >= 2 and s[1] >= 0.3 and s[1] >= 0.03 * s[0] and list(amap) == inv and bool(mirror) == bool(case["mirrored"]):
         out.count("recovery:motion_checked")
@@ -1067,9 +1610,23 @@ def evaluate(case, out: Outcome, pend):
         key = (route, case["fam"], n, case["related"], case.get("quat"), case.get("shift"), case["perm"], case["mirrored"], sorted(fl.items(), key=str))
         if "pivot" in case:
             key = key + (case["pivot"], tuple(case["C"][0]))
+        if "rotfloat" in case:
+            key = key + (tuple(case["rotfloat"][0]), tuple(case["C"][0]))
+        if "prefix" in case:
+            key = key + (case["prefix"],)
         out.nontrivial(repr(key))
     if "pivot" in case:
         out.count("pivot:" + case["pivot"])
+    if "special" in case:
+        sp = case["special"]
+        out.count(f"special:{sp['deg']}deg about {sp['axis']} axis, reference {'in principal-axis frame' if sp['frame'] == 'principal' else 'as is'}")
+        Rt0, Ct0 = R - R.mean(0), C - C.mean(0)
+        if len(R) == len(C) and case["perm"] == list(range(n)) and not case["mirrored"]:
+            cv = Rt0.T @ Ct0
+            if np.allclose(cv, cv.T, rtol=0.0, atol=1e-10):
+                out.count("special:covariance symmetric(1e-10)" + (", trace>0" if np.trace(cv) > 0 else ", trace<=0"))
+    if "prefix" in case:
+        out.count("atom-order prefix:" + case["prefix"] + (",mirrored" if case["mirrored"] else "") + (",run_mirror" if fl.get("run_mirror") else ""))
     if route != "molecule":
         count_centroid_relation(out, R, C, case["mirrored"], rotated=("quat" not in case) or any(case["quat"][1:]) or "rotfloat" in case)
 
@@ -1099,6 +1656,11 @@ def evaluate(case, out: Outcome, pend):
                       run_mirror=fl.get("run_mirror", False))
         if "algorithm" in fl:
             kwargs["algorithm"] = fl["algorithm"]
+        if "uno_cutoff" in fl:
+            kwargs["uno_cutoff"] = fl["uno_cutoff"]
+            out.count("flag:uno_cutoff=" + repr(fl["uno_cutoff"]))
+        if not kwargs["atoms_map"] or kwargs["run_resorting"]:
+            out.count("search:" + (kwargs.get("algorithm", "hungarian_uno(default)") if (HAVE_NX or "algorithm" in kwargs) else "default->permutative(no networkx)"))
         for k, v in kwargs.items():
             if k in ("atoms_map", "run_resorting", "run_to_completion", "run_mirror") and v:
                 out.count("flag:" + k)
@@ -1150,6 +1712,9 @@ def evaluate(case, out: Outcome, pend):
                         out.count("mirror:chiral_unrequested_rmsd>0" if rm > 1e-6 else "mirror:chiral_unrequested_rmsd~0")
         for ent in rec.calls:
             process_b787_call(ent, case_id, out, pend)
+        if HAVE_NX and rigid and not case["mirrored"] and kwargs.get("algorithm", "hungarian_uno") == "hungarian_uno" \
+                and (not kwargs["atoms_map"] or kwargs["run_resorting"]):
+            check_true_map_candidate(case, case_id, out, R, C, runiq, cuniq, kwargs.get("uno_cutoff", 1.0e-3), "B787 search")
         if len(out.samples) < 4 or (len(out.samples) < 5 and sol.mirror):
             out.sample({"route": route, "n": n, "family": case["fam"], "related": case["related"], "flags": fl, "rmsd": float(rmsd),
                         "mirror": bool(sol.mirror), "atommap": [int(x) for x in sol.atommap]})
@@ -1158,7 +1723,64 @@ def evaluate(case, out: Outcome, pend):
     if route == "molecule":
         evaluate_molecule(case, case_id, out, pend, R, n)
         return
+    if route == "plaus":
+        evaluate_plaus(case, case_id, out, pend, R, C, runiq, cuniq)
+        return
     raise ValueError(route)
+
+
+def check_true_map_candidate(case, case_id, out: Outcome, R, C, runiq, cuniq, cutoff, where):
+    """float counterpart of Props/C12Uno.lean `true_map_is_candidate`: for a rigid (unmirrored) copy the applied atom map
+    has cost ~1e-20 in every class matrix, far below any cutoff >= 1e-6, so it must be among the enumerated candidates"""
+    if float(cutoff) < 1e-6:
+        return
+    n = len(R)
+    pm = case["perm"]
+    inv = [pm.index(i) for i in range(n)]
+    cands, _ = capture_uno(runiq, cuniq, R, C, cutoff)
+    out.count("uno:true_map_checked")
+    if inv not in cands:
+        out.mismatches.append(Finding("mismatch:true_map_not_candidate", case_id, observed=f"{len(cands)} candidates, e.g. {cands[:3]}", expected=inv,
+                                      detail=f"{where}: the applied atom map of a rigid copy is not among the hungarian_uno candidates (uno_cutoff={float(cutoff)!r})"))
+
+
+def resolve_cutoff(case, runiq, cuniq, R, C):
+    """uno_cutoff of a direct candidate-generation case: a literal, or a value read off the reduced matrices the solver
+    returns for this very input (they do not depend on the cutoff) so that an entry sits exactly AT the threshold
+    ('entry': that edge is excluded by `<`) or one ulp below it ('entry+ulp': included)"""
+    cm = case["cutmode"]
+    if cm["kind"] == "literal":
+        return float(cm["value"])
+    _, classes = capture_uno(runiq, cuniq, R, C, 1.0e-3)
+    vals = sorted({float(v) for cl in classes for v in np.asarray(cl["red"]).ravel() if v > 0.0})
+    if not vals:
+        return 1.0e-3
+    v = vals[int(cm["rank"]) % len(vals)]
+    return float(np.nextafter(v, np.inf)) if cm["kind"] == "entry+ulp" else v
+
+
+def evaluate_plaus(case, case_id, out: Outcome, pend, R, C, runiq, cuniq):
+    """direct call of `_plausible_atom_orderings(..., algorithm='hungarian_uno', uno_cutoff=...)`: candidate SET vs model"""
+    if not HAVE_NX:
+        out.count("plaus:skipped(no networkx)")
+        return
+    try:
+        cutoff = resolve_cutoff(case, runiq, cuniq, R, C)
+        with recording() as rec:
+            got = [[int(x) for x in c] for c in _A._plausible_atom_orderings(runiq.copy(), cuniq.copy(), R.copy(), C.copy(),
+                                                                             algorithm="hungarian_uno", verbose=0, uno_cutoff=cutoff)]
+    except Exception as e:  # noqa
+        out.violations.append(Finding("oracle:raised", case_id, observed=err_class(e) + ": " + str(e)[:200], detail="_plausible_atom_orderings(hungarian_uno) raised on an in-scope input"))
+        return
+    out.count("cutmode:" + case["cutmode"]["kind"])
+    cands, classes = capture_uno(runiq, cuniq, R, C, cutoff)
+    if got != cands:
+        out.mismatches.append(Finding("mismatch:O", case_id, observed=str(got[:4])[:300], expected=str(cands[:4])[:300], detail="direct call: two runs of the same search differ"))
+    uno_lines(runiq, cuniq, R, C, cutoff, got, classes, case_id, out, pend, "direct _plausible_atom_orderings")
+    if case["related"] == "rigid" and not case["mirrored"]:
+        check_true_map_candidate(case, case_id, out, R, C, runiq, cuniq, cutoff, "direct call")
+    if len(out.samples) < 6 and len(got) > 1:
+        out.sample({"route": "plaus", "n": len(R), "family": case["fam"], "uno_cutoff": cutoff, "candidates": len(got)})
 
 
 def evaluate_molecule(case, case_id, out, pend, R, n):
@@ -1166,7 +1788,7 @@ def evaluate_molecule(case, case_id, out, pend, R, n):
 
     fl = case["flags"]
     syms = [ELEMENT_OF[x] for x in case["runiq"]]
-    A = quat_rot_exact(case["quat"])
+    A = case_rotation(case)
     sh = [float.fromhex(x) for x in case["shift"]]
     pm = case["perm"]
     perm_on = pm != list(range(n))
@@ -1210,9 +1832,12 @@ def evaluate_molecule(case, case_id, out, pend, R, n):
         Cexp[:, 1] = -Cexp[:, 1]
     Cexp = Cexp[pm]
     Cg = np.array(cmol.geometry)
-    if float(np.max(np.abs(Cg - Cexp))) > 1e-10 or list(cmol.symbols) != [syms[i] for i in pm]:
-        V.append(Finding("oracle:scramble_applies_motion", case_id, observed=float(np.max(np.abs(Cg - Cexp))), expected="<= 1e-10", detail="scrambled molecule is not the requested rotated/shifted/shuffled copy"))
-    count_centroid_relation(out, Rg, Cg, case["mirrored"], rotated=any(case["quat"][1:]))
+    # scramble stores the copy through float_prep(geometry_noise=13): 13 decimals and a ZERO BAND |x| < 5**-14 = 1.64e-10, so a
+    # coordinate of the exact copy in (1e-10, 1.64e-10) comes back as 0 (seen: planar molecule in its principal-axis frame
+    # turned by 270 degrees) — the former 1e-10 tolerance lay inside that band (false alarm); 2e-10 lies just outside it
+    if float(np.max(np.abs(Cg - Cexp))) > 2e-10 or list(cmol.symbols) != [syms[i] for i in pm]:
+        V.append(Finding("oracle:scramble_applies_motion", case_id, observed=float(np.max(np.abs(Cg - Cexp))), expected="<= 2e-10", detail="scrambled molecule is not the requested rotated/shifted/shuffled copy"))
+    count_centroid_relation(out, Rg, Cg, case["mirrored"], rotated=any(case["quat"][1:]) or "rotfloat" in case)
     mill = adata["mill"]
     cuniq = list(cmol.symbols)
     c2 = dict(case)
@@ -1243,6 +1868,35 @@ def evaluate_molecule(case, case_id, out, pend, R, n):
 # ------------------------------------------------------------------------------------------------
 
 
+def run_model_chunks(ctx: Ctx, lines, nproc=4):
+    """the driver is a pure line-by-line function, so the stream is cut into `nproc` contiguous chunks of about equal
+    size (bytes) that go through separate driver processes concurrently; answers are concatenated in order"""
+    import copy
+    from concurrent.futures import ThreadPoolExecutor
+
+    total = sum(len(x) for x in lines)
+    if len(lines) < 200 or total < 2_000_000:
+        return ctx.run_model(DRIVER, lines)
+    chunks, cur, acc = [], [], 0
+    for x in lines:
+        cur.append(x)
+        acc += len(x)
+        if acc >= total / nproc and len(chunks) < nproc - 1:
+            chunks.append(cur)
+            cur, acc = [], 0
+    if cur:
+        chunks.append(cur)
+
+    def one(ic):
+        c = copy.copy(ctx)  # own batch counter -> own input file name
+        c._batch = 1000 * (ic + 1)
+        return c.run_model(DRIVER, chunks[ic])
+
+    with ThreadPoolExecutor(max_workers=len(chunks)) as ex:
+        parts = list(ex.map(one, range(len(chunks))))
+    return [a for part in parts for a in part]
+
+
 def run_cases(ctx: Ctx, cases, out: Outcome):
     pend = []
     for i, case in enumerate(cases):
@@ -1250,7 +1904,7 @@ def run_cases(ctx: Ctx, cases, out: Outcome):
         evaluate(case, out, pend)
     out.count("model_lines", len(pend))
     if ctx.model_available and pend:
-        answers = ctx.run_model(DRIVER, [p.line for p in pend])
+        answers = run_model_chunks(ctx, [p.line for p in pend])
         for p, a in zip(pend, answers):
             p.cmp(a)
     elif pend:
@@ -1259,6 +1913,7 @@ def run_cases(ctx: Ctx, cases, out: Outcome):
 
 def run(ctx: Ctx) -> Outcome:
     out = Outcome()
+    _install()
     cases = list(gen_cases(ctx))
     run_cases(ctx, cases, out)
     out.exhaustive = False
@@ -1269,6 +1924,13 @@ def run(ctx: Ctx) -> Outcome:
                      f"cases with coinciding off-origin centroids and a rotated or unrelated second geometry this run: "
                      f"{d.get('centroids:coincide(<1e-10),off-origin,second geometry rotated/unrelated', 0)}")
     out.notes.append(f"networkx available: {HAVE_NX}")
+    if not HAVE_NX:
+        out.notes.append("fallback without networkx (old wording): " + NX_TEXT_ABSENT)
+    else:
+        d = out.distribution
+        out.notes.append(f"hungarian_uno candidate generations replayed through the model this run: {d.get('uno:calls', 0)} "
+                         f"(class calls {d.get('U:lines', 0)}, solver answers certified by certGap {d.get('U:certified_gap_ok', 0)}, "
+                         f"applied atom map looked up among the candidates in {d.get("uno:true_map_checked", 0)} rigid cases; a miss is a disagreement)")
     return out
 
 
